@@ -96,14 +96,7 @@ Definition schema_bits (doc : jv) : list bool :=
       map (fun kv => valid PARAM (snd kv)) (obj_items (getd (s "global.parameters") (JObj []) l))
   | _ => []
   end.
-(* known finding K5: mappings that repeat a key are merged by the YAML loader;
-   the rest of the monitor holds on the loaded document *)
-Definition sig_K5 (doc : jv) (obs : result) : bool :=
-  negb (nodupkeys doc) &&
-  match obs with
-  | Accept names => negb (malformed (yaml_load doc)) && strs_eqb names (step_names (yaml_load doc))
-  | _ => false
-  end.
+(* sig_K5 (Verify.v): signature of the known finding K5 *)
 (* a case: document, implementation outcome, (jsonschema bits, compare-with-model?) *)
 Definition case_ok (c : jv * result * (list bool * bool)) : bool :=
   let '(doc, obs, (js, cmp)) := c in
